@@ -552,3 +552,78 @@ func (w *World) paramFedByDepth(fn *ssa.Function, suffix string, depth int) stri
 	}
 	return "param:" + fn.Params[idx].Name()
 }
+
+// probeAgreement: optional-interface probes. For every comma-ok type assertion `v.(I)` in fn where I is an
+// interface declared in the module and v has interface type J: every product type that implements J and has a
+// method named like a method of I must implement I — otherwise the probe silently answers false for the
+// library's own implementation (a signature drifted) and the optional behaviour is lost.
+func probeAgreement(c *Ctx, fn *ssa.Function, prefix string) {
+	w := c.W
+	fns := []*ssa.Function{fn}
+	fns = append(fns, closuresOf(fn)...)
+	for _, f := range fns {
+		for _, b := range f.Blocks {
+			for _, in := range b.Instrs {
+				ta, ok := in.(*ssa.TypeAssert)
+				if !ok || !ta.CommaOk {
+					continue
+				}
+				I, ok := ta.AssertedType.Underlying().(*types.Interface)
+				if !ok || I.NumMethods() == 0 {
+					continue
+				}
+				named, ok := ta.AssertedType.(*types.Named)
+				if !ok || named.Obj().Pkg() == nil || !strings.HasPrefix(named.Obj().Pkg().Path(), modPath) {
+					continue
+				}
+				J, ok := ta.X.Type().Underlying().(*types.Interface)
+				if !ok {
+					continue
+				}
+				rule := "optional-interface probe: every product type that implements " + abbrev(types.TypeString(ta.X.Type(), nil)) + " and has a method named like one of " + abbrev(types.TypeString(ta.AssertedType, nil)) + " implements that interface (the probe cannot silently miss the library's own implementation)"
+				n := 0
+				var bad []string
+				for _, sp := range w.Product {
+					for _, nm := range sp.Pkg.Scope().Names() {
+						tn, ok := sp.Pkg.Scope().Lookup(nm).(*types.TypeName)
+						if !ok || tn.IsAlias() {
+							continue
+						}
+						if _, isI := tn.Type().Underlying().(*types.Interface); isI {
+							continue
+						}
+						for _, T := range []types.Type{types.NewPointer(tn.Type()), tn.Type()} {
+							if !types.Implements(T, J) {
+								continue
+							}
+							ms := w.Prog.MethodSets.MethodSet(T)
+							has := false
+							for i := 0; i < I.NumMethods(); i++ {
+								for k := 0; k < ms.Len(); k++ {
+									if ms.At(k).Obj().Name() == I.Method(i).Name() {
+										has = true
+									}
+								}
+							}
+							if !has {
+								break
+							}
+							n++
+							if !types.Implements(T, I) {
+								bad = append(bad, abbrev(types.TypeString(T, nil)))
+							}
+							break
+						}
+					}
+				}
+				c.Evals++
+				key := prefix + "/" + named.Obj().Name()
+				if len(bad) > 0 {
+					c.Bad(key, rule, w.InstrPos(ta), "has the method by name but does not implement the probed interface (signature mismatch): "+strings.Join(bad, ", "))
+				} else {
+					c.OK(key, rule+fmt.Sprintf(" [%d implementing types]", n), w.InstrPos(ta))
+				}
+			}
+		}
+	}
+}
